@@ -50,6 +50,16 @@ vars == <<r, c, k, env, store, out, st, last>>
 
 P == Progs[Runs[r].prog]
 Funcs == P.funcs         \* record: fname -> [params |-> <<x..>>, body |-> <<stmt..>>]
+Methods == P.methods     \* record: struct name -> record: method name -> function name ("Cls.meth")
+\* the function implementing method m for the value v ("" if there is none): user-defined methods of struct objects
+MethodOf(st0, v, m) ==
+    IF v[1] = "sref" /\ st0[v[2]][2] \in DOMAIN Methods /\ m \in DOMAIN Methods[st0[v[2]][2]]
+    THEN Methods[st0[v[2]][2]][m] ELSE ""
+UnDunder(op) == CASE op = "+" -> "__pos__" [] op = "-" -> "__neg__" [] op = "~" -> "__invert__" [] OTHER -> ""
+BinDunder(op) == CASE op = "+" -> "__add__" [] op = "-" -> "__sub__" [] op = "*" -> "__mul__" [] op = "//" -> "__floordiv__"
+                   [] op = "%" -> "__mod__" [] op = "&" -> "__and__" [] op = "|" -> "__or__" [] op = "^" -> "__xor__"
+                   [] op = "<<" -> "__lshift__" [] op = ">>" -> "__rshift__" [] op = "**" -> "__pow__" [] op = "/" -> "__truediv__"
+                   [] OTHER -> ""
 
 ---------------------------------------------------------------------------
 \* helpers
@@ -216,6 +226,7 @@ Eval ==
          [] e[1] = "Builtin" ->
                 IF e[3] = <<>> THEN Stuck(<<"builtin without args", e[2]>>)
                 ELSE Go(<<"E", e[3][1]>>, Push(<<"seq", <<"Builtin", e[2]>>, <<>>, Tail1(e[3])>>))
+         [] e[1] = "MCall"   -> Go(<<"E", e[2]>>, Push(<<"mcallee", e[3], e[4]>>))     \* obj.meth(args): object first
          [] e[1] = "MustReject" -> Stuck(<<"MustReject", e[2]>>)
          [] OTHER -> Stuck(<<"unknown expression", e[1]>>)
 
@@ -246,6 +257,7 @@ Finish(kind, vals) ==       \* all components of a sequence-like expression are 
                                 IF res = Undefined THEN Stuck(<<"undefined builtin", kind[2], vals>>)
                                 ELSE Go(<<"V", res>>, Pop)
       [] kind[1] = "Args"    -> EnterCall(kind[2], vals, Pop)
+      [] kind[1] = "MArgs"   -> EnterCall(<<"fn", kind[2]>>, <<kind[3]>> \o vals, Pop)
       [] kind[1] = "PanicArgs" -> Go(<<"P", kind[2]>>, Pop)
       [] OTHER -> Stuck(<<"finish", kind>>)
 
@@ -269,12 +281,24 @@ Apply ==
            f == Top IN
        CASE f[1] = "binop"  -> Go(<<"E", f[3]>>, Append(Pop, <<"binop2", f[2], v>>))
          [] f[1] = "binop2" -> LET res == BinOp(f[2], f[3], v) IN
-                               IF f[2] \in {"//", "%"} /\ f[3][1] \in {"int", "bool"} /\ v[1] \in {"int", "bool"} /\ v[2] = 0
+                               IF f[3][1] = "sref"          \* user-defined operator of a struct object
+                               THEN (IF MethodOf(store, f[3], BinDunder(f[2])) # ""
+                                     THEN EnterCall(<<"fn", MethodOf(store, f[3], BinDunder(f[2]))>>, <<f[3], v>>, Pop)
+                                     ELSE Stuck(<<"undefined binop", f[2], f[3], v>>))
+                               ELSE IF f[2] \in {"//", "%"} /\ f[3][1] \in {"int", "bool"} /\ v[1] \in {"int", "bool"} /\ v[2] = 0
                                THEN Go(<<"P", "division by zero">>, Pop)      \* Python raises, Guppy panics: both stop here
                                ELSE IF res = Overflow THEN Stuck(<<"overflow">>)
                                ELSE IF res = Undefined THEN Stuck(<<"undefined binop", f[2], f[3], v>>) ELSE Go(<<"V", res>>, Pop)
          [] f[1] = "unop"   -> LET res == UnOp(f[2], v) IN
-                               IF res = Undefined THEN Stuck(<<"undefined unop", f[2], v>>) ELSE Go(<<"V", res>>, Pop)
+                               IF v[1] = "sref" /\ f[2] # "not"
+                               THEN (IF MethodOf(store, v, UnDunder(f[2])) # ""
+                                     THEN EnterCall(<<"fn", MethodOf(store, v, UnDunder(f[2]))>>, <<v>>, Pop)
+                                     ELSE Stuck(<<"undefined unop", f[2], v>>))
+                               ELSE IF res = Undefined THEN Stuck(<<"undefined unop", f[2], v>>) ELSE Go(<<"V", res>>, Pop)
+         [] f[1] = "mcallee" ->      \* f = <<"mcallee", method name, argument expressions>>; v = the object
+                IF MethodOf(store, v, f[2]) = "" THEN Stuck(<<"no such method", f[2], v>>)
+                ELSE IF f[3] = <<>> THEN EnterCall(<<"fn", MethodOf(store, v, f[2])>>, <<v>>, Pop)
+                ELSE Go(<<"E", f[3][1]>>, Append(Pop, <<"seq", <<"MArgs", MethodOf(store, v, f[2]), v>>, <<>>, Tail1(f[3])>>))
          [] f[1] = "boolop" ->
                 IF (f[2] = "and" /\ ~Truthy(v)) \/ (f[2] = "or" /\ Truthy(v)) \/ f[3] = <<>>
                 THEN Go(<<"V", v>>, Pop)                                  \* short circuit / last operand
